@@ -11,6 +11,8 @@ CONSTANTS
   BlockSize = 8192
   Pos <- MCPos
   CoverKinds = {"PushBlobChunked", "Write", "Resume", "Close", "Commit", "Cancel", "UpSize", "DeleteBlob", "GetBlob", "PushBlob"}
+  PrintKinds = {}
+  PrintMinMans = 0
 CONSTRAINT BufBound
 VIEW CoverView
 CHECK_DEADLOCK FALSE
